@@ -6,6 +6,7 @@ from .. import gen_treex as X
 from ..check import Prop, Op
 short, close = X.short, X.close
 
+FIND_THEOREMS = ['findLabels_mem', 'findLabels_sorted', 'findLabels_head_least', 'findLabels_row_lt', 'findLabels_owner', 'getCandidates_mem']
 THEOREMS = ['labels_length', 'label_get', 'mapRows_get', 'row_owner', 'row_owner_unique', 'ofLeaf_labels', 'ofMF_labels']
 
 
@@ -107,13 +108,15 @@ def lookup_names(labels):
 class C13(Prop):
   id = 'C13'
   lean_module = 'DK.Props.C13'
-  theorems = ['DK.C13.' + t for t in THEOREMS]
+  theorems = {'DK.Props.C13': ['DK.C13.' + t for t in THEOREMS],
+              'DK.Props.C13find': ['DK.C13.' + t for t in FIND_THEOREMS]}
   rule = ('random rooted ordered trees (depth <= 3 quick / 4 thorough, fan-out <= 3, nested sets, MFDeviceSet / TwoRatioMFDeviceSet adaptors with 1..3 '
           'conduits, SubBalancedDeviceSet nodes), horizon 1..6 (..10); leaf ids with the regex-special characters Device accepts (+ ( ) [ ]); sibling pairs '
           '`x_e` / `x.e` that differ only in the separator; flow matrices flat and shaped; non-trivial: some node has children with '
           'different row counts, at least one adaptor, all rows of the flow matrix pairwise different')
   sizes = {'quick': 400, 'thorough': 10000}
-  assumptions = ['get / find are checked by the oracle only (the model has no regular expressions); the theorems cover labels and map',
+  assumptions = ['find(regexp) is checked by the oracle only (the model keeps the predicate abstract: Tree.findLabels; no regular expressions); get(name) is tied to '
+                 'Tree.getCandidates (plain string suffix) by T2 ops treex.find / treex.get',
                  'oracle: labels and leaf objects recomputed by own recursion over .devices; row ownership observed by perturbing one row and '
                  'watching which block cost, evaluated on the rows map() returned, changes']
   dup_rate = float(os.environ.get('VERIF_C13_DUP', '0.05'))
@@ -147,7 +150,9 @@ class C13(Prop):
       if decorate_ids(rng, t, rng.choice([0.0, 0.3, 0.6])):
         case['special'] = True
       if rng.random() < self.dup_rate and make_duplicate(rng, t):
-        case['dup'] = True
+        ls = labels_of(t)
+        if len(set(ls)) != len(ls):      # same sibling ids, same qualified ids (a leaf next to an adaptor of the same id stays distinct)
+          case['dup'] = True
       out.append(case)
     return out
 
@@ -177,6 +182,17 @@ class C13(Prop):
         Op({'op': 'treex.map', 'tree': t, 'n': n, 'S': case['S']}, lambda S=S: X.enc_map([(l, r) for l, _, r in dev.mapDevices(S)]), 1e-9,
            'mapDevices (%s flow): label codes + row' % shp),
       ]
+    # lookup by qualified-id suffix: candidate rows (Tree.getCandidates) and the row get() returns (their head)
+    names = lookup_names(labels_of(t))
+    pick = names[::max(1, len(names)//5)][:5] + [x for x in names if '.' in x and not x.startswith(t['id'])][:1]
+    for name in pick:
+      ops.append(Op({'op': 'treex.find', 'tree': t, 'n': n, 'name': name},
+                    lambda name=name: [i for i, (k, _) in enumerate(dev.leaf_devices()) if k.endswith(name)], 1e-9, 'rows whose label ends with %r' % name))
+      if not case.get('dup'):
+        def got_row(name=name):
+          g = dev.get(name)
+          return [i for i, (_, o) in enumerate(dev.leaf_devices()) if o is g][:1]
+        ops.append(Op({'op': 'treex.get', 'tree': t, 'n': n, 'name': name}, got_row, 1e-9, 'row of the leaf get(%r) returns' % name))
     return ops
 
   # ------------------------------------------------------------------ oracle (implementation only)
@@ -239,7 +255,7 @@ class C13(Prop):
     try:
       base_total = float(dev.cost(S, Pf)); base = block_costs(S)
       for k in range(R):
-        S2 = S.copy(); S2[k, :] += n_.array([0.25 + i/16.0 for i in range(n)])
+        S2 = S.astype(float); S2[k, :] += n_.array([0.25 + i/16.0 for i in range(n)])
         tot = float(dev.cost(S2, Pf)); bc = block_costs(S2)
         if not (n_.isfinite(tot) and n_.isfinite(base_total) and n_.isfinite(bc).all() and n_.isfinite(base).all()):
           continue
@@ -249,41 +265,56 @@ class C13(Prop):
         scale = max(1.0, abs(tot), abs(base_total))
         others = [j for j in range(len(blocks)) if j != owner and abs(d[j]) > 1e-9*scale]
         if others or abs(d_tot - d[owner]) > 1e-8*scale:
-          fail('ownership', 'perturbing row %d (label %s) changes the tree cost by %.10g; on the rows map() returns, the owner %s changes by %.10g and other blocks %s change too'
-               % (k, exp_labels[k], d_tot, '.'.join(blocks[owner][3]), d[owner], ['.'.join(blocks[j][3]) for j in others]))
+          fail('ownership', 'perturbing row %d (label %s) changes the tree cost by %.10g; evaluated on the rows map() returns, its owner %s changes by %.10g%s'
+               % (k, exp_labels[k], d_tot, '.'.join(blocks[owner][3]), d[owner], (' and other blocks change too: %s' % ['.'.join(blocks[j][3]) for j in others]) if others else ''))
           return fails
     except Exception as e:
       fail('ownership', 'evaluating the tree / block costs on the rows map() returned raised %s: %s' % (type(e).__name__, str(e)[:160]))
       return fails
 
     # get / find return those same leaf objects
-    dupes = len(set(exp_labels)) != len(exp_labels)
-    kind = 'lookup-duplicate-id' if dupes else 'lookup'
+    dup_labels = {l for l in exp_labels if exp_labels.count(l) > 1}
+    def kind_for(rows):
+      """a lookup failure is the known duplicate-id finding only when a row it should have returned carries a duplicated label."""
+      return 'lookup-duplicate-id' if any(exp_labels[i] in dup_labels for i in rows) else 'lookup'
     def ids(objs): return [getattr(o, 'id', '?') for o in objs]
-    try:
-      allf = dev.find('.*')
-      if len(allf) != R or any(a is not b for a, b in zip(allf, exp_objs)):
-        fail(kind, "find('.*') returns %d objects %s; the tree has %d leaves %s (labels %s)" % (len(allf), ids(allf), R, ids(exp_objs), exp_labels))
-      for k, lab in enumerate(exp_labels):
-        if fails:
+    def rows_of(objs): return [[i for i, o in enumerate(exp_objs) if o is x] for x in objs]
+
+    def check_find(pattern, why):
+      """find(pattern) == the leaf objects of the rows whose label re.match-es the pattern (anchored at the start), in row order."""
+      hits = [i for i, l in enumerate(exp_labels) if re.match(pattern, l)]
+      self.stats['find_lookups'] = self.stats.get('find_lookups', 0) + 1
+      try:
+        fnd = dev.find(pattern)
+      except Exception as e:
+        fail(kind_for(hits), 'find(%r) raised %s: %s (labels %s)' % (pattern, type(e).__name__, str(e)[:100], exp_labels)); return False
+      if len(fnd) != len(hits) or any(a is not exp_objs[i] for a, i in zip(fnd, hits)):
+        fail(kind_for(hits), 'find(%r) returns the leaves of rows %s %s; the rows whose label matches from its first character are %s %s (%s; all labels: %s)'
+             % (pattern, rows_of(fnd), ids(fnd), hits, [exp_labels[i] for i in hits], why, exp_labels))
+        return False
+      return True
+
+    ok = check_find('.*', 'every leaf')
+    seen_pat = set()
+    for k, lab in enumerate(exp_labels):
+      if not ok:
+        break
+      parts = lab.split('.')
+      pats = [(re.escape(lab) + '$', 'the full qualified id')]
+      for j in range(len(parts)):
+        suf = '.'.join(parts[j:])
+        pats.append(('.*' + re.escape(suf) + '$', 'qualified-id suffix'))
+        if j > 0:
+          # not anchored at the start of the label: must NOT match (re.match semantics) unless the label itself starts like that
+          pats.append((re.escape(suf) + '$', 'a path relative to an inner node: matches mid-label only'))
+          pats.append((re.escape(parts[j]), 'an inner / leaf id alone: occurs mid-label only'))
+      for pat, why in pats:
+        if pat in seen_pat:
+          continue
+        seen_pat.add(pat)
+        ok = check_find(pat, why)
+        if not ok:
           break
-        parts = lab.split('.')
-        for j in range(len(parts)):
-          suf = '.'.join(parts[j:])
-          hits = [i for i, l in enumerate(exp_labels) if l.endswith(suf)]
-          fnd = dev.find('.*' + re.escape(suf) + '$')
-          if len(fnd) != len(hits) or any(a is not exp_objs[i] for a, i in zip(fnd, hits)):
-            fail(kind, "find('.*%s$') returns %s; the leaves whose label ends with %r are rows %s %s" % (re.escape(suf), ids(fnd), suf, hits, [exp_labels[i] for i in hits]))
-            break
-          if j == 0 and exp_labels.count(lab) == 1:
-            one = dev.find(re.escape(lab) + '$')
-            if len(one) != 1 or one[0] is not exp_objs[k]:
-              fail(kind, 'find(%r) returns %s, expected exactly the leaf of row %d' % (re.escape(lab) + '$', ids(one), k)); break
-          elif j == 0 and dupes and dev.get(lab) is not exp_objs[exp_labels.index(lab)]:
-            fail(kind, 'get(%r): two rows (%s) carry this qualified id; get returns the object of the later row, find returns one object for both, '
-                       'dict(map(S)) keeps one row' % (lab, [i for i, l in enumerate(exp_labels) if l == lab])); break
-    except Exception as e:
-      fail(kind, 'get/find raised %s: %s' % (type(e).__name__, str(e)[:160]))
     # get(name): plain qualified-id suffix (str.endswith), first match in leaf order -- names with '.', '+', '(', '[' ... included
     for name in lookup_names(exp_labels):
       if fails:
@@ -293,12 +324,12 @@ class C13(Prop):
       try:
         got = dev.get(name)
       except Exception as e:
-        fail(kind, 'get(%r) raised %s: %s although the label(s) of row(s) %s %s end with it (all labels: %s)'
+        fail(kind_for(hits[:1]), 'get(%r) raised %s: %s although the label(s) of row(s) %s %s end with it (all labels: %s)'
              % (name, type(e).__name__, str(e)[:80], hits, [exp_labels[i] for i in hits], exp_labels))
         break
       if got is not exp_objs[hits[0]]:
         where_got = [i for i, o in enumerate(exp_objs) if o is got]
-        fail(kind, 'get(%r) returns the leaf of row %s (%s); the first leaf whose qualified id ends with %r is row %d (%s) (all labels: %s)'
+        fail(kind_for(hits[:1]), 'get(%r) returns the leaf of row %s (%s); the first leaf whose qualified id ends with %r is row %d (%s) (all labels: %s)'
              % (name, where_got, [exp_labels[i] for i in where_got], name, hits[0], exp_labels[hits[0]], exp_labels))
     return fails[:2]
 
